@@ -273,4 +273,28 @@ theorem count_run (P E : Nat) (fill : Bool) (hP : 1 ≤ P) (hE : 1 ≤ E) (ps : 
     simp only [CW.runFrom, List.zip_cons_cons, countViolationFrom, h1, if_true]
     exact ih _ _ h2
 
+/-- `countViolationFrom = none` means: every step emitted exactly what the spec requires. -/
+theorem cvf_none_steps (P E : Nat) (fill : Bool) (tr : List (Pt × Option Batch)) :
+    ∀ (pre : List Pt), countViolationFrom P E fill pre tr = none →
+      ∀ (k : Nat) (p : Pt) (o : Option Batch), tr[k]? = some (p, o) →
+        o = specCountOut P E fill (pre ++ (tr.take k).map (·.1) ++ [p]) := by
+  induction tr with
+  | nil => intro pre _ k p o hk; simp at hk
+  | cons x tr ih =>
+    intro pre h k p o hk
+    obtain ⟨p0, o0⟩ := x
+    simp only [countViolationFrom] at h
+    by_cases he : o0 = specCountOut P E fill (pre ++ [p0])
+    · rw [if_pos he] at h
+      cases k with
+      | zero =>
+        simp at hk
+        obtain ⟨rfl, rfl⟩ := hk
+        simpa using he
+      | succ k =>
+        simp at hk
+        have := ih _ h k p o hk
+        simpa using this
+    · rw [if_neg he] at h; simp at h
+
 end Kap.C03
